@@ -106,6 +106,7 @@ type vSnap struct {
 	alpn  [][]string // up to capacity
 	echs  [][]byte
 	ports []uint16
+	meta  []string // result port, Additional keys with their lengths, per-record priority / target / flags
 }
 
 func vSnapshot(r ResolveResult) vSnap {
@@ -116,6 +117,19 @@ func vSnapshot(r ResolveResult) vSnap {
 		}
 	}
 	cp(r.Address)
+	s.meta = append(s.meta, string([]byte{byte(r.Port >> 8), byte(r.Port), byte(len(r.Address)), byte(len(r.HTTPS)), byte(len(r.Additional))}))
+	for _, k := range []string{"t1", "t2"} {
+		if v, ok := r.Additional[k]; ok {
+			s.meta = append(s.meta, k+string([]byte{byte(len(v))}))
+		}
+	}
+	for _, h := range r.HTTPS {
+		nd := byte(0)
+		if h.NoDefaultALPN {
+			nd = 1
+		}
+		s.meta = append(s.meta, h.Target+string([]byte{byte(h.Priority >> 8), byte(h.Priority), nd, byte(len(h.IPv4Hint)), byte(len(h.IPv6Hint))}))
+	}
 	for _, h := range r.HTTPS {
 		full := h.ALPN[:cap(h.ALPN)]
 		s.alpn = append(s.alpn, append([]string{}, full...))
@@ -129,8 +143,13 @@ func vSnapshot(r ResolveResult) vSnap {
 }
 
 func vSnapEq(a, b vSnap) bool {
-	if len(a.ips) != len(b.ips) || len(a.alpn) != len(b.alpn) {
+	if len(a.ips) != len(b.ips) || len(a.alpn) != len(b.alpn) || len(a.meta) != len(b.meta) {
 		return false
+	}
+	for i := range a.meta {
+		if a.meta[i] != b.meta[i] {
+			return false
+		}
 	}
 	ok := true
 	for i := range a.ips {
@@ -175,6 +194,7 @@ func verifC15Targets() {
 	if vBool() {
 		r.Additional["t1"] = vIPList(1)
 	}
+	r.Additional["t2"] = []net.IP{{10, 9, 9, 9}} // a second target name with an address of its own
 	for i := 0; i < nh; i++ {
 		pr := vUint16()
 		vAssume(pr <= 2)
@@ -182,6 +202,9 @@ func verifC15Targets() {
 		h := dns.HTTPS{Priority: pr, NoDefaultALPN: full && vBool()}
 		if vBool() {
 			h.Target = "t1"
+			if i == 1 {
+				h.Target = "t2" // each record contributes the addresses of its OWN target
+			}
 		}
 		if full && vBool() {
 			h.Port = vUint16()
